@@ -23,11 +23,12 @@ func verifPoint(id int, cancel <-chan struct{}) {
 }
 
 // VerifTokenHook, when set, is called by Lex with every token the
-// parser receives; lx identifies the lexer instance.
-var VerifTokenHook func(lx interface{}, typ int, pos ast.Pos, val string, w ast.Word)
+// parser receives; lx identifies the lexer instance and nested tells
+// whether it is the lexer of a command substitution.
+var VerifTokenHook func(lx interface{}, nested bool, typ int, pos ast.Pos, val string, w ast.Word)
 
 func verifToken(l *lexer, typ int, pos ast.Pos, val string, w ast.Word) {
 	if h := VerifTokenHook; h != nil {
-		h(l, typ, pos, val, w)
+		h(l, l.cmdSubst != 0, typ, pos, val, w)
 	}
 }
